@@ -236,7 +236,7 @@ package jet
 //@   nopanic
 //@   ensures [kind-class] result == KFloat(kind)
 //@ func checkEquality
-//@   props C10 C07 C12
+//@   props C10 C07 C12 C04
 //@   loop 0 invariant 0 <= i && vlen == RvLen(v1) && vlen == RvLen(v2)
 //@   loop 1 invariant 0 <= i && vlen == RvLen(v1) && vlen == RvLen(v2)
 //@   loop 2 invariant 0 <= i && n == RvNumField(v1)
@@ -595,7 +595,6 @@ package jet
 
 //@ func (*Runtime).YieldBlock
 //@   props C18 C07 C08 C12
-//@   nocrash
 //@   requires RtOK(st)
 //@   modifies @Interp
 //@   ensures [yieldblock-balanced] SameS(st)
@@ -642,7 +641,6 @@ package jet
 //@ func (*Template).Execute
 //@   props C10 C08 C12
 //@   anypanic
-//@   nocrash
 //@   requires t != nil && t.set != nil && t.set.gmx != nil && SetOK(t.set) && w != nil && TplOK(t)
 //@   modifies @Interp, type Runtime.escapeeWriter, type escapeeWriter.set, type scope.blocks, type scope.variables, type scope.parent
 //@   loop 0 invariant [root-walk] t != nil && TplOK(t) && RootOf(t) == RootOf(old(t))
